@@ -1358,6 +1358,13 @@ Theorem C02_example_loads_multi_filtered :
                C02_multi_domain LoadsMultiExample.ex_fstyle LoadsMultiExample.ex_parts_f LoadsMultiExample.ex_adoc file.
 Proof. exact LoadsMultiExample.example_loads_multi_filtered. Qed.
 
+(* non-vacuity of the Length reference ACROSS parts: the stream (object 3) is in part 1, its Length "4 0 R" names the integer object 4
+   that part 2 holds; part 1 ends with the filtered cross-reference stream, part 2 with a table *)
+Theorem C02_example_loads_multi_reflen :
+  exists file, ref_write_multi LoadsMultiExample.ex_fstyle LoadsMultiExample.ex_parts_rl LoadsMultiExample.ex_adoc_rl = Some file /\
+               C02_multi_domain LoadsMultiExample.ex_fstyle LoadsMultiExample.ex_parts_rl LoadsMultiExample.ex_adoc_rl file.
+Proof. exact LoadsMultiExample.example_loads_multi_reflen. Qed.
+
 (* non-vacuity of C02_full: the object-stream example (stream format) and the Length-reference example (table format)
    are in the domain *)
 Theorem C02_example_full :
@@ -1505,6 +1512,7 @@ Print Assumptions C02_example_loads_multi_table.
 Print Assumptions C02_loads_multi_mixed.
 Print Assumptions C02_example_loads_multi_mixed.
 Print Assumptions C02_example_loads_multi_filtered.
+Print Assumptions C02_example_loads_multi_reflen.
 Print Assumptions C02_example_full.
 Print Assumptions C02_example_loads_table.
 Print Assumptions C02_example_object.
